@@ -1026,6 +1026,35 @@ def call_method(interp, base, name, args, kwargs):
             return K(None)
         if name == 'copy':
             return SetV(base.items)
+        if name == 'update':
+            for a_ in args:
+                for x in interp.iterate(a_):
+                    base.add(x)
+            return K(None)
+        if name in ('union', 'intersection', 'difference',
+                    'symmetric_difference') and all(
+                isinstance(a_, (SetV, ListV, TupleV, K)) for a_ in args):
+            cur = list(base.items)
+            for a_ in args:
+                other = interp.iterate(a_)
+
+                def has(seq, x):
+                    return any(interp.truth(_compare(interp, '==', x, y))
+                               for y in seq)
+                if name == 'union':
+                    cur = cur + [x for x in other if not has(cur, x)]
+                elif name == 'intersection':
+                    cur = [x for x in cur if has(other, x)]
+                elif name == 'difference':
+                    cur = [x for x in cur if not has(other, x)]
+                else:
+                    cur = [x for x in cur if not has(other, x)] + \
+                        [x for x in other if not has(cur, x)]
+            return SetV(cur)
+        if name in ('pop', 'difference_update', 'intersection_update',
+                    'symmetric_difference_update', '__ior__', '__iand__',
+                    '__isub__', '__ixor__'):
+            raise Inexact('set.%s' % name)
     if isinstance(base, TupleV):
         if name == 'index' or name == 'count':
             pass
